@@ -484,7 +484,7 @@ Proof.
     + apply Forall_upd; [exact V2|]. split; cbn [cl_id cl_cache cl_prev]; [exact Hid|].
       intros k v [Hin|Hin] Hk Hv.
       * apply In_cremove in Hin. apply (Hcache k v); auto.
-      * apply In_ckeep in Hin. apply (Hcache k v); auto.
+      * apply in_app_or in Hin. destruct Hin as [Hin|Hin]; [apply In_ckeep in Hin|]; apply (Hcache k v); auto.
     + apply Forall_map_same; [|exact V3]. intros x. apply get_ok_close_waits.
   - (* ADel *)
     destruct (sget (a_store s) key); injection HR as <- _; [|exact HV].
@@ -1350,6 +1350,23 @@ Lemma enter_flags g st :
   g_ph_closed (enter g st) = (match st with GSProbe _ => false | _ => g_ph_closed g end).
 Proof. unfold enter. destruct st; cbn; auto. Qed.
 
+Lemma In_rm1 x y l : x <> y -> In x l -> In x (rm1 y l).
+Proof.
+  intros N. induction l as [|z l IH]; cbn [rm1 In]; [tauto|].
+  destruct (pair_eqb y z) eqn:E.
+  - apply pair_eqb_eq in E. subst z. intros [H|H]; [congruence|exact H].
+  - intros [H|H]; [left; exact H|right; apply IH, H].
+Qed.
+
+Lemma In_rm_keys c ks : forall l c' k', In (c', k') l -> (c' <> c \/ mem_key k' ks = false) -> In (c', k') (rm_keys c ks l).
+Proof.
+  induction ks as [|k ks IH]; intros l c' k' H Hn; cbn [rm_keys]; [exact H|].
+  apply IH.
+  - apply In_rm1; [|exact H]. destruct Hn as [N|N]; [congruence|].
+    cbn [mem_key] in N. apply orb_false_iff in N. destruct N as [N _]. apply bytes_eqb_neq in N. congruence.
+  - destruct Hn as [N|N]; [left; exact N|right]. cbn [mem_key] in N. apply orb_false_iff in N. tauto.
+Qed.
+
 Lemma winv_step cttl s l s' : winv s -> astep cttl s l = Some s' -> winv s'.
 Proof.
   intros HW HS. unfold astep in HS.
@@ -1522,9 +1539,8 @@ Proof.
     destruct (nth_error (a_cls s) c) as [cl|] eqn:Hc; [|discriminate].
     destruct (forallb (fun k => mem_pair (c, k) (a_infl s)) ks); [|discriminate]. injection HR as <- _.
     assert (Hkeep : forall c' k', pending s c' k' -> (c' <> c \/ mem_key k' ks = false) ->
-              pend (a_track s) (filter (fun e => negb (Nat.eqb (fst e) c && mem_key (snd e) ks)) (a_infl s)) c' k').
-    { intros c' k' [H|H] Hn; [left; exact H|right]. apply filter_In. split; [exact H|]. cbn [fst snd].
-      destruct Hn as [N|N]; [apply Nat.eqb_neq in N; rewrite N; reflexivity|rewrite N; apply negb_true_iff, andb_false_r]. }
+              pend (a_track s) (rm_keys c ks (a_infl s)) c' k').
+    { intros c' k' [H|H] Hn; [left; exact H|right]. apply In_rm_keys; assumption. }
     constructor; unfold pending; cbn [a_cls a_gets a_track a_infl].
     + intros c' cl' k x Hc' Hin. rewrite nth_error_upd in Hc'. destruct (Nat.eqb_spec c c') as [<-|N].
       * destruct (Nat.ltb c (length (a_cls s))); [|discriminate]. injection Hc' as <-. cbn [cl_cache] in Hin.
